@@ -9,6 +9,7 @@ import (
 	"fmt"
 	"io"
 	"strings"
+	"sync"
 	"testing"
 	"time"
 
@@ -32,6 +33,8 @@ const stanzaErrNS = "urn:ietf:params:xml:ns:xmpp-stanzas"
 
 // outstandingID is the id of the application's own pending request.
 const outstandingID = "out-1"
+
+const midWriterID = "mid-writer-element"
 
 // ---------------------------------------------------------------- case model
 
@@ -110,6 +113,9 @@ type tcase struct {
 	// test@example.net during negotiation (as resource binding does): stanzas
 	// from example.org are then from somebody else
 	addrChanged bool
+	// while the input is served another goroutine of the application is in the
+	// middle of writing an element of its own (it holds a token writer open)
+	midWriter bool
 	// the session was negotiated by the websocket package's negotiator
 	// (WebSocket framing: the stream header's namespace is the framing
 	// namespace, every stanza declares its own); "" | "initiated" | "received"
@@ -192,6 +198,7 @@ func genWrites(t *rapid.T, e elem, ns string) []write {
 func genCase(t *rapid.T) tcase {
 	tc := tcase{s2s: rapid.Bool().Draw(t, "s2s"), useMux: rapid.Bool().Draw(t, "mux"), reg: map[string]bool{}}
 	tc.addrChanged = rapid.IntRange(0, 2).Draw(t, "addrChanged") == 0
+	tc.midWriter = rapid.IntRange(0, 7).Draw(t, "midWriter") == 0
 	if rapid.IntRange(0, 3).Draw(t, "ws") == 0 {
 		tc.ws = rapid.SampledFrom([]string{"initiated", "received"}).Draw(t, "wsRole")
 		tc.s2s, tc.addrChanged = false, false
@@ -331,7 +338,7 @@ func (tc tcase) ns() string {
 
 func (tc tcase) String() string {
 	var sb strings.Builder
-	fmt.Fprintf(&sb, "s2s=%v mux=%v own-request-%q-outstanding=%v address-assigned-during-negotiation(created as example.org)=%v websocket-session=%q", tc.s2s, tc.useMux, outstandingID, tc.outstanding, tc.addrChanged, tc.ws)
+	fmt.Fprintf(&sb, "s2s=%v mux=%v own-request-%q-outstanding=%v address-assigned-during-negotiation(created as example.org)=%v websocket-session=%q another-goroutine-mid-element-while-handlers-reply=%v", tc.s2s, tc.useMux, outstandingID, tc.outstanding, tc.addrChanged, tc.ws, tc.midWriter)
 	if tc.useMux {
 		var ks []string
 		for k := range tc.reg {
@@ -364,6 +371,10 @@ type runner struct {
 	tc    *tcase
 	calls []int // index of the element each invocation served
 	next  int
+	// aboutToWrite, when set, is called before a handler's first write (the
+	// harness then lets a concurrent writer that is in the middle of an element
+	// finish)
+	aboutToWrite func()
 }
 
 func (r *runner) run(p prog, t xmlstream.TokenReadEncoder) error {
@@ -378,6 +389,9 @@ func (r *runner) run(p prog, t xmlstream.TokenReadEncoder) error {
 				return err
 			}
 		}
+	}
+	if len(p.writes) > 0 && r.aboutToWrite != nil {
+		r.aboutToWrite()
 	}
 	for _, w := range p.writes {
 		var err error
@@ -653,9 +667,42 @@ func check(t interface {
 	} else {
 		close(odone)
 	}
+	mdone := make(chan struct{})
+	if tc.midWriter {
+		started := make(chan struct{})
+		release := make(chan struct{})
+		var once sync.Once
+		run.aboutToWrite = func() {
+			once.Do(func() { close(release) })
+			// give the other goroutine no head start: it finishes its element while
+			// the handler's first token is already on its way
+		}
+		go func() {
+			defer close(mdone)
+			w := s.TokenWriter()
+			st := xml.StartElement{Name: xml.Name{Space: ns, Local: "message"}, Attr: []xml.Attr{xt.A("id", midWriterID), xt.A("type", "chat")}}
+			_ = w.EncodeToken(st)
+			close(started)
+			select {
+			case <-release:
+				time.Sleep(500 * time.Microsecond)
+			case <-time.After(2 * time.Millisecond):
+			}
+			_ = w.EncodeToken(st.End())
+			_ = w.Close()
+		}()
+		<-started
+	} else {
+		close(mdone)
+	}
 	var serveErr error
 	if p := ev.Guard(func() { serveErr = s.Serve(h) }); p != "" {
 		fail("Serve panicked: %s", p)
+	}
+	select {
+	case <-mdone:
+	case <-time.After(10 * time.Second):
+		fail("the application's own token writer did not finish")
 	}
 	ocancel()
 	select {
@@ -687,6 +734,9 @@ func check(t interface {
 			}
 			if sawStreamErr {
 				fail("element after the stream error: %s\noutput: %q", it.Node.Canon(), out)
+			}
+			if id, _ := it.Node.Get("id"); id == midWriterID {
+				continue // the element the other goroutine was writing
 			}
 			if id, _ := it.Node.Get("id"); tc.outstanding && !skippedOwn && id == outstandingID {
 				if typ, _ := it.Node.Get("type"); typ == "get" && it.Node.Find("ping") != nil {
@@ -799,6 +849,9 @@ func classify(tc tcase) (bool, []string) {
 	}
 	if tc.ws != "" {
 		classes = append(classes, "websocket-session-"+tc.ws)
+	}
+	if tc.midWriter {
+		classes = append(classes, "concurrent-writer-mid-element")
 	}
 	if tc.addrChanged {
 		classes = append(classes, "address-assigned-during-negotiation")
